@@ -44,8 +44,14 @@ def make_scenarios(ctx, count):
         frames = [G.f_discover(rng, net, m=m, tos=0, bridged=bridged)]
         kinds = []
         mtu_changes = {}
+        mac_changes = {}
         mtu0 = mtu
         for j in range(rng.randint(3, 6)):
+            if j > 0 and i >= len(plan) and rng.random() < 0.1:
+                # the interface's hardware address is changed while the session runs: emitted frames carry the address the
+                # platform reports at that moment
+                net.own = G.related_mac(rng, net.own) if rng.random() < 0.5 else G.rand_mac(rng)
+                mac_changes[len(frames)] = net.own
             if j > 0 and i >= len(plan) and rng.random() < 0.15:
                 # the link's MTU changes while the interface lives on: how many descriptors an Emit may carry is decided by
                 # the MTU at the time it arrives
@@ -80,7 +86,8 @@ def make_scenarios(ctx, count):
                 struct.pack_into(">H", b, 32, rng.choice([carried + 1, cap + 1, cap + 2, 0xFFFF, 0x8000, 0x4000, 1000, rng.choice(wrap16),
                                                           rng.randint(cap + 1, 0xFFFF)]) & 0xFFFF)
                 frames.append(bytes(b))
-        s = H.Scenario("e%d" % i, meta=dict(frames=frames, own=cfg["mac"], mtu=mtu0, rxseed=cfg["rxseed"], mtu_changes=mtu_changes))
+        s = H.Scenario("e%d" % i, meta=dict(frames=frames, own=cfg["mac"], mtu=mtu0, rxseed=cfg["rxseed"], mtu_changes=mtu_changes,
+                                            mac_changes=mac_changes))
         s.iface(0, **H.iface_kw(cfg)).glob(**G.global_kw(G.rand_global(rng, icon_size=100)))
         s.add("OPT txcap=3000")
         if i % 3 == 2:
@@ -93,7 +100,9 @@ def make_scenarios(ctx, count):
             s.iface(1, **H.iface_kw(cfg1))
             shadow = (1, fr1)
         s.frames(0, frames, rng if i % 2 else None, p_gap=0.25, base=True, shadow=shadow,
-                 inserts={k: ["MTU 0 %d %d" % (v, cfg["rxseed"])] for k, v in mtu_changes.items()})
+                 inserts={k: (["MTU 0 %d %d" % (mtu_changes[k], cfg["rxseed"])] if k in mtu_changes else []) +
+                          (["SET 0 mac=%s" % mac_changes[k].hex()] if k in mac_changes else [])
+                          for k in set(mtu_changes) | set(mac_changes)})
         scns.append(s)
     return scns
 
@@ -130,6 +139,9 @@ def monitor(scn, sobj, rep, sf, ck):
         if idx >= len(frames):
             break
         fr = frames[idx]
+        if idx in sobj.meta.get("mac_changes", {}):
+            own = sobj.meta["mac_changes"][idx]
+            rep.count("address_changed_mid_history")
         if idx in sobj.meta.get("mtu_changes", {}):
             mtu = sobj.meta["mtu_changes"][idx]
             cap = G.cap_emit(mtu)
@@ -259,4 +271,5 @@ def run(ctx):
     rep.need("emit_n:cap", c.get("emit_n:cap", 0), 5)
     rep.need("clock_gaps_between_frames", rep.counters.get("clock_gaps_between_frames", 0), 200)
     rep.need("inputs_of_a_second_interface_in_between", rep.counters.get("inputs_of_a_second_interface_in_between", 0), 500)
+    rep.need("address_changed_mid_history", c.get("address_changed_mid_history", 0), 20)
     rep.need("mtu_changed_mid_history", c.get("mtu_changed_mid_history", 0), 20)
